@@ -4,7 +4,8 @@ Segs == { {}, {<<0>>}, {<<1,2>>}, {<<0,1,15>>}, {<<0>>,<<1>>}, {<<0>>,<<15>>},
           {<<0>>,<<1>>,<<2>>,<<15>>}, {<<1>>,<<2,0>>}, {<<0,0>>,<<0,1>>,<<15>>}, {<<>>} }
 SegsSmall == { {}, {<<0>>}, {<<1,2>>}, {<<0>>,<<15>>}, {<<1>>,<<2,0>>}, {<<>>} }
 BadSeqs == { << <<0>>, <<0>> >>, << <<0>>, <<0,1>> >>, << <<>>, <<1>> >>,
-             << <<1>>, <<2,0>>, <<2,0,1>> >>, << <<1,2,0>>, <<2>>, <<1,2>> >>, << <<15>>, <<1>>, <<15>> >> }
+             << <<1>>, <<2,0>>, <<2,0,1>> >>, << <<1,2,0>>, <<2>>, <<1,2>> >>, << <<15>>, <<1>>, <<15>> >>,
+             << <<1>>, <<2,0>>, <<2,0>> >>, << <<0,1>>, <<2>>, <<0,1>>, <<1,1,1>> >> }
 Strange == { <<>>, <<0>>, <<7>>, <<0,0>>, <<1,2,3>> }
 Nibs == {0, 1, 2, 15}
 Q3 == {<<>>} \cup {<<a>> : a \in Nibs} \cup {<<a, b>> : a \in Nibs, b \in Nibs}
